@@ -773,9 +773,9 @@ class Compiler:
             self._compile_expression(node.discriminant)
 
             jump_to_body: List[Tuple[int, int]] = []
-            default_jump = None
+            default_index = None
 
-            # Compile case tests
+            # Compile case tests (all of them, in source order; default is only a fallback)
             for i, case in enumerate(node.cases):
                 if case.test:
                     self._emit(OpCode.DUP)
@@ -784,10 +784,10 @@ class Compiler:
                     pos = self._emit_jump(OpCode.JUMP_IF_TRUE)
                     jump_to_body.append((pos, i))
                 else:
-                    default_jump = (self._emit_jump(OpCode.JUMP), i)
+                    default_index = i
 
-            # Jump to end if no match
-            jump_end = self._emit_jump(OpCode.JUMP)
+            # No case matched: jump to the default clause if there is one, else to the end
+            no_match_jump = self._emit_jump(OpCode.JUMP)
 
             # Case bodies
             case_positions = []
@@ -799,7 +799,10 @@ class Compiler:
                 for stmt in case.consequent:
                     self._compile_statement(stmt)
 
-            self._patch_jump(jump_end)
+            if default_index is not None:
+                self._patch_jump(no_match_jump, case_positions[default_index])
+            else:
+                self._patch_jump(no_match_jump)
             # Break jumps land here, while the discriminant is still on the stack
             for pos in loop_ctx.break_jumps:
                 self._patch_jump(pos)
@@ -807,9 +810,6 @@ class Compiler:
 
             # Patch jumps to case bodies
             for pos, idx in jump_to_body:
-                self._patch_jump(pos, case_positions[idx])
-            if default_jump:
-                pos, idx = default_jump
                 self._patch_jump(pos, case_positions[idx])
 
             self.loop_stack.pop()
